@@ -110,6 +110,7 @@ func (l *URIParamsLst) More() bool {
 // Init initializes the parsed paramters list with a parameter place-holder
 // array.
 func (l *URIParamsLst) Init(pbuf []URIParam) {
+	l.Reset() // a used list must restart from scratch (counters, state)
 	l.Params = pbuf
 }
 
